@@ -18,3 +18,12 @@ package httpproxy
 //@   serves C20
 //@   requires proxy != nil
 //@   ensures[C20] form: result == sprintf3("%s/%s/%s", boxstr(proxy.baseURL), kind, boxstr(hash))
+
+// Put hands the reader to an uploader (channel send) or, when the queue is full, closes it:
+// exactly one of the two happens (C12: a full upload queue leaks nothing).
+//@ func (r *remoteHTTPProxyCache) Put(ctx context.Context, kind cache.EntryKind, hash string, logicalSize int64, sizeOnDisk int64, rc io.ReadCloser)
+//@   serves C12 C14
+//@   requires r != nil && rc != nil && r.errorLogger != nil
+//@   modifies sendN, sentRefs, icloseN, iclosed
+//@   ensures[C12,C14] handedoverorclosed: (sendN == old(sendN) + 1 && icloseN == old(icloseN) && sentRefs[payload(rc)]) ||
+//@       (sendN == old(sendN) && icloseN == old(icloseN) + 1 && iclosed == payload(rc))
